@@ -187,6 +187,15 @@ func (w *CronWorker) refreshUpdatedJobConfigs(now time.Time) {
 				)
 				continue
 			}
+
+			// Only add back what still exists, using its latest version: the flushed
+			// object may have been deleted (and possibly recreated) in the meantime.
+			current, err := w.jobconfigInformer.Lister().JobConfigs(jobConfig.Namespace).Get(jobConfig.Name)
+			if err != nil {
+				continue
+			}
+			jobConfig = current
+
 			if _, err := w.schedule.Bump(jobConfig, now); err != nil {
 				klog.ErrorS(err, "croncontroller: cannot bump updated job config in heap",
 					"namespace", jobConfig.Namespace,
